@@ -12,7 +12,10 @@ import (
 	"encoding/json"
 	"errors"
 	"fmt"
+	"os"
 	"strings"
+	"sync"
+	"sync/atomic"
 	"time"
 
 	"github.com/yandex/pandora/core"
@@ -389,6 +392,154 @@ func child() {
 	res.ChildDone()
 }
 
+// ---------------------------------------------------------------- real providers whose source fails
+
+// anyGun shoots whatever ammo a real provider delivers.
+type anyGun struct {
+	st     *realState
+	aggr   core.Aggregator
+	closed atomic.Int32
+}
+
+type realState struct {
+	mu    sync.Mutex
+	guns  []*anyGun
+	shots atomic.Int64
+}
+
+func (g *anyGun) Bind(a core.Aggregator, _ core.GunDeps) error { g.aggr = a; return nil }
+func (g *anyGun) Shoot(core.Ammo) {
+	g.st.shots.Add(1)
+	g.aggr.Report(&vkit.MockSample{Tag: "shot"})
+}
+func (g *anyGun) Close() error { g.closed.Add(1); return nil }
+
+type realCase struct {
+	Provider  string `json:"provider"`
+	Fault     string `json:"fault"` // open-fails-late | read-fails-after-<n>
+	Instances int    `json:"instances"`
+}
+
+var realAmmo = map[string]string{
+	"uri":       strings.Repeat("/a/b?c=d tag\n", 400),
+	"uripost":   strings.Repeat("5 /p tag\nhello\n", 400),
+	"raw":       strings.Repeat("36 tag\nGET /r HTTP/1.1\r\nHost: h.example\r\n\r\n\n", 400),
+	"http/json": strings.Repeat(`{"host":"h","method":"GET","uri":"/j","tag":"t"}`+"\n", 400),
+	"grpc/json": strings.Repeat(`{"tag":"t","call":"target.TargetService.Hello","payload":{"name":"x"}}`+"\n", 400),
+	"json":      strings.Repeat(`{"k":"v"}`+"\n", 400),
+}
+
+// realProviderFault: the ammo source of a real provider cannot be opened (found out after 40 ms,
+// when the instances are already waiting for ammo) or fails in the middle of the file. The run
+// must return an error carrying the cause, Wait must return, every started instance must
+// finish and every gun be closed.
+func realProviderFault(res *vkit.Result, c realCase) {
+	key := "C05/real-provider/" + c.Provider + "/" + strings.SplitN(c.Fault, "-after-", 2)[0]
+	dir := "/failopen/"
+	cause := vkit.ErrInjectedOpen
+	if strings.HasPrefix(c.Fault, "read-fails-after-") {
+		dir = "/failread/" + strings.TrimPrefix(c.Fault, "read-fails-after-") + "/"
+		cause = vkit.ErrInjectedRead
+	}
+	path := dir + strings.ReplaceAll(c.Provider, "/", "_") + fmt.Sprintf("-%d.ammo", c.Instances)
+	_ = vkit.WriteMemAt(path, []byte(realAmmo[c.Provider]))
+	defer vkit.RemoveMem(path)
+	ammo := map[string]any{"type": c.Provider, "file": path}
+	if c.Provider == "json" {
+		ammo = map[string]any{"type": "json", "source": map[string]any{"type": "file", "path": path}}
+	}
+	ec, err := vkit.DecodePools(map[string]any{"pools": []any{map[string]any{
+		"id": "p", "ammo": ammo, "result": map[string]any{"type": "discard"},
+		"gun": map[string]any{"type": "http", "target": "127.0.0.1:1"}, "rps": map[string]any{"type": "unlimited", "duration": "60s"},
+		"startup": map[string]any{"type": "once", "times": c.Instances},
+	}}})
+	if err != nil {
+		// a provider that opens its source when it is created may refuse the config: that is an outcome too
+		if errors.Is(err, cause) || strings.Contains(err.Error(), cause.Error()) {
+			res.Count("real_provider_rejected_at_creation", 1)
+			res.Eval(vkit.JSON(c), true)
+			return
+		}
+		res.Inconclusive(true, "real-provider pool rejected: %v", err)
+		return
+	}
+	st := &realState{}
+	ec.Pools[0].Aggregator = &vkit.MockAggregator{FailAfter: -1}
+	ec.Pools[0].NewGun = func() (core.Gun, error) {
+		g := &anyGun{st: st}
+		st.mu.Lock()
+		st.guns = append(st.guns, g)
+		st.mu.Unlock()
+		return g, nil
+	}
+	m := vkit.NewMetrics()
+	eng := engine.New(vkit.NopLog(), m, ec)
+	done := make(chan error, 1)
+	go func() { done <- eng.Run(context.Background()) }()
+	var rerr error
+	select {
+	case rerr = <-done:
+	case <-time.After(30 * time.Second):
+		res.Violate(key+"/run-hang", "Engine.Run did not return within 30 s after the provider's source failed:\n"+strings.Join(vkit.PandoraGoroutines(), "\n\n"), c)
+		return
+	}
+	// the run must fail and name the provider; the text of the cause is the provider's business (a
+	// line cut short by a read error is reported by some decoders as undecodable ammo)
+	if rerr == nil || !strings.Contains(rerr.Error(), "provider failed") {
+		res.Violate(key+"/outcome", fmt.Sprintf("the provider's source failed (%v) but the run returned %v", cause, rerr), c)
+	}
+	if rerr != nil && strings.Contains(rerr.Error(), cause.Error()) {
+		res.Count("real_provider_error_names_cause", 1)
+	}
+	wd := make(chan struct{})
+	go func() { eng.Wait(); close(wd) }()
+	select {
+	case <-wd:
+	case <-time.After(15 * time.Second):
+		res.Violate(key+"/wait-hang", fmt.Sprintf("Engine.Wait had not returned 15 s after the failed run (instances started %d, finished %d, %d shots):\n%s",
+			m.InstanceStart.Get(), m.InstanceFinish.Get(), st.shots.Load(), strings.Join(vkit.PandoraGoroutines(), "\n\n")), c)
+		return
+	}
+	if s, f := m.InstanceStart.Get(), m.InstanceFinish.Get(); s != f {
+		res.Violate(key+"/instances", fmt.Sprintf("%d instances started, %d finished", s, f), c)
+	}
+	st.mu.Lock()
+	for i, g := range st.guns {
+		// gun 0 may be the engine's warm-up gun, which is never bound
+		if g.aggr != nil && g.closed.Load() != 1 {
+			res.Violate(key+"/gun-close", fmt.Sprintf("gun %d closed %d times", i, g.closed.Load()), c)
+		}
+	}
+	st.mu.Unlock()
+	res.Count("real_provider_faults", 1)
+	res.Count("real_provider_shots_before_fault", st.shots.Load())
+	res.Eval(vkit.JSON(c), true)
+}
+
+func realProviderFaults(res *vkit.Result) {
+	vkit.Fs()
+	if rp := os.Getenv("VERIF_REPLAY"); rp != "" {
+		// replay of one real-provider case, repeated
+		b, _ := os.ReadFile(rp)
+		var rj struct {
+			Case realCase `json:"case"`
+		}
+		if json.Unmarshal(b, &rj) == nil && rj.Case.Provider != "" {
+			for i := 0; i < 200; i++ {
+				realProviderFault(res, rj.Case)
+			}
+		}
+		return
+	}
+	for _, prov := range []string{"uri", "uripost", "raw", "http/json", "grpc/json", "json"} {
+		for _, fault := range []string{"open-fails-late", "read-fails-after-0", "read-fails-after-3000", "read-fails-after-9000"} {
+			for _, inst := range []int{1, 4} {
+				realProviderFault(res, realCase{Provider: prov, Fault: fault, Instances: inst})
+			}
+		}
+	}
+}
+
 func main() {
 	if vkit.IsChild() {
 		child()
@@ -397,6 +548,11 @@ func main() {
 	res := vkit.NewResult("fault plan = component (provider, aggregator, gun factory, bind, warm-up, schedule factory, shot panic, cancel, none) × position, each repeated K times with 1–8 instances, shared/per-instance profile and 1–3 pools; distinct = distinct (plan, instances, pools, observed await order of the pool's result channels); non-trivial = a fault fired or a cancel was delivered")
 	rng := vkit.Rand("c05")
 	reps := vkit.N(10, 50)
+	if b, err := os.ReadFile(os.Getenv("VERIF_REPLAY")); err == nil && strings.Contains(string(b), "C05/real-provider/") {
+		realProviderFaults(res)
+		res.Write()
+		return
+	}
 	var cases []Plan
 	for _, base := range plans() {
 		for r := 0; r < reps; r++ {
@@ -433,6 +589,7 @@ func main() {
 			_ = json.Unmarshal(c.Case, &p)
 			res.Violate(fmt.Sprintf("C05/%s/%s/process-died", p.Component, p.Pos), "child process died or hung while running this plan:\n"+c.Output, p)
 		}})
+	realProviderFaults(res)
 	vkit.CheckRaceLog(res, "C05")
 	if res.Counter("faults_fired") < int64(len(cases)/3) {
 		res.Inconclusive(true, "too few faults fired: %d of %d runs", res.Counter("faults_fired"), len(cases))
